@@ -11,4 +11,7 @@ EXPLANATION = (
 ASSUMED = ["A-STRUCT / A-UTF8: struct.unpack and utf-8 decoding raise on malformed payloads (modelled as may-raise)",
            "C-SUBPARSE: nested payloads are parsed by the same load() one level down"]
 from pyvc.check import standin_bounded
-BOUNDED = [standin_bounded("C17")]
+from pyvc.check import external_bounded
+BOUNDED = [standin_bounded("C17"),
+           external_bounded("deep-schema:C17", "standin.deep", ["C17", "--n", "150"], ["C17", "--n", "800"],
+                            "field numbers whose tags take 2..5 bytes (32 .. 2**29-1) in every presence discipline: encoding vs reference, decode, len, delimited round trip, read as unknown fields")]
